@@ -11,7 +11,7 @@ import Tahoe.BackupDb.LemmasSession
     | … and timestamps are trusted | same theorems: `useTs = true` is part of the conclusion |
     | (mechanism) the cap found for a path is the one that was uploaded: fileid allocation | `fileid_of_cap_unique` (same cap ⇒ same fileid), `fileid_determines_cap` (different caps ⇒ different fileids), `alloc_stable_along_history` (a cap keeps its fileid whatever is inserted later, in any table), `alloc_independent_of_other_tables` (seeded change C42-b) |
     | a directory cap is reused only for exactly the same name-to-cap contents | `dir_reuse_only_same_contents`, `dir_reuse_witness`, `session_dir_reuse_only_same_contents` under the explicit hypothesis that the directory hash is injective; the encoding part without hypothesis: `dir_encoding_injective` (+ `dir_encoding_canonical`) |
-    | backup *runs* (ordinary and `--ignore-timestamps`) | `toolFileStep`/`toolDirStep` (Session.lean) are the per-file / per-directory steps of a run; `ignore_timestamps_run_records_new_cap` (an --ignore-timestamps run records what it uploads: seeded change C42-e), `tool_file_step_reuse_sound` |
+    | backup *runs* (ordinary and `--ignore-timestamps`) | `toolFileStep`/`toolDirStep`/`trun` (Session.lean) are the per-file / per-directory steps of a run and whole histories of runs; **`backup_runs_reuse_sound`** (every reuse decision in any history of runs, files and directories), `tool_dir_step_reuse_sound`, `ignore_timestamps_run_records_new_cap` (an --ignore-timestamps run records what it uploads: seeded change C42-e), `tool_file_step_reuse_sound` |
     | (not in the statement) when a check of the stored cap is requested | `no_check_within_a_month`, `always_check_after_two_months` |
 
     Not covered by a theorem (correspondence only): SQLite itself (tables are finite maps), `abspath_expanduser_unicode`,
@@ -292,6 +292,53 @@ example :
     let r := toolFileStep id s [2] ⟨7, 5, 6⟩ true [66] true 200 0
     -- … and the next ordinary run reuses capB
     r.2.1 = true ∧ (toolFileStep id r.1 [2] ⟨7, 5, 6⟩ false [67] true 300 0).2 = (false, [66]) := by decide
+
+/-- The directory side of a run step: a step that does not create a directory uses the dircap given to the most
+    recent creation for exactly the same (name, cap) entries (directory hash collision-free). -/
+theorem tool_dir_step_reuse_sound (H : Bytes → K) (hH : Function.Injective H) (sops : List SOp)
+    (contents : List Entry) (newd : Bytes) (healthy : Bool) (now : Int) (rnd : Nat)
+    (h : (toolDirStep H (srun H sops) contents newd healthy now rnd).2.1 = false) :
+    lastCreateOf contents (srun H sops).trace
+      = some (toolDirStep H (srun H sops) contents newd healthy now rnd).2.2 := by
+  have h1 := sstep_checkDir_dres H (srun H sops) contents now rnd
+  simp only [toolDirStep, h1] at h ⊢
+  cases hw : (checkDirectory H (srun H sops).db contents now rnd).wasCreated with
+  | none => simp [hw] at h
+  | some d =>
+    have hl := session_dir_reuse_only_same_contents H hH sops contents now rnd d hw
+    simp only [hw] at h ⊢
+    by_cases hs : (checkDirectory H (srun H sops).db contents now rnd).shouldCheck = false
+    · simp only [hs, if_true]; exact hl
+    · by_cases hh : healthy = true
+      · simp only [hs, hh, if_true]; exact hl
+      · simp [hs, hh] at h
+
+/-- **Any history of backup runs** (any number of runs, ordinary or `--ignore-timestamps`, any file changes in between,
+    any answers of the grid): whenever a run does not upload a file but reuses a cap, timestamps are trusted in that run,
+    and size/mtime/ctime of the file equal the record of the most recent upload of that path in the whole history, whose
+    cap it is; whenever a run reuses a directory cap, it is the one of the most recent creation for exactly these entries. -/
+theorem backup_runs_reuse_sound (H : Bytes → K) (hH : Function.Injective H) (rs : List RunStep) :
+    (∀ path st ign newcap healthy now rnd,
+      (tstep H (trun H rs) (.file path st ign newcap healthy now rnd)).2.1 = false →
+        ign = false ∧ lastUploadOf path (trun H rs).trace
+          = some (st.size, st.mtime, st.ctime, (tstep H (trun H rs) (.file path st ign newcap healthy now rnd)).2.2))
+    ∧ (∀ contents newd healthy now rnd,
+      (tstep H (trun H rs) (.dir contents newd healthy now rnd)).2.1 = false →
+        lastCreateOf contents (trun H rs).trace
+          = some (tstep H (trun H rs) (.dir contents newd healthy now rnd)).2.2) := by
+  obtain ⟨sops, hs⟩ := reach_trun H rs
+  rw [hs]
+  exact ⟨fun path st ign newcap healthy now rnd h => tool_file_step_reuse_sound H sops path st ign newcap healthy now rnd h,
+         fun contents newd healthy now rnd h => tool_dir_step_reuse_sound H hH sops contents newd healthy now rnd h⟩
+
+example :
+    -- run 1 (ordinary) uploads A; the bytes change silently; run 2 (--ignore-timestamps) uploads B; run 3 (ordinary)
+    -- reuses B; a fourth run that sees another ctime uploads again
+    let rs := [RunStep.file [2] ⟨7, 5, 6⟩ false [65] true 100 0, RunStep.file [3] ⟨1, 1, 1⟩ false [70] true 100 0,
+               RunStep.file [2] ⟨7, 5, 6⟩ true [66] true 200 0]
+    (tstep (K := Bytes) id (trun id rs) (.file [2] ⟨7, 5, 6⟩ false [67] true 300 0)).2 = (false, [66])
+      ∧ (tstep (K := Bytes) id (trun id rs) (.file [3] ⟨1, 1, 1⟩ false [71] true 300 0)).2 = (false, [70])
+      ∧ (tstep (K := Bytes) id (trun id rs) (.file [2] ⟨7, 5, 9⟩ false [67] true 300 0)).2 = (true, [67]) := by decide
 
 /-- no check is requested within `NO_CHECK_BEFORE` (30 days) of the last check, whatever `random()` says … -/
 theorem no_check_within_a_month (now lastChecked : Int) (rnd : Nat)
